@@ -126,6 +126,12 @@ func (s TxSpec) build() *types.Transaction {
 const (
 	// init code returning an 11-byte runtime: SSTORE(0,1); LOG0(0,0); STOP
 	createCode = "0x600b600c600039600b6000f3" + "600160005560006000a000"
+	// a contract that observes the block environment the executor hands to the EVM: the init code stores
+	// TIMESTAMP, NUMBER, COINBASE, GASLIMIT and DIFFICULTY in slots 1..5 and emits LOG0(TIMESTAMP); the
+	// 14-byte runtime does SSTORE(0,TIMESTAMP); LOG0(TIMESTAMP). Everything the EVM sees must be a
+	// function of (header, tx, parent state): the post-state and the receipt (logs) expose it otherwise
+	envCode = "0x" + "42600155" + "43600255" + "41600355" + "45600455" + "44600555" + "42600052" + "60206000a0" +
+		"600e6029600039600e6000f3" + "4260005542600052" + "60206000a000"
 )
 
 func addr(i int) string { return fmt.Sprintf("0x%040x", 0x5000+i) }
@@ -265,7 +271,11 @@ func genInput(rng *rand.Rand, idx int, nRoots int) Input {
 			s.Data = string(b)
 		case c < 93:
 			s.Kind = "contract-create"
-			b, _ := json.Marshal(types.ContractData{AbiData: createCode, TransferValue: "0", GasLimit: "30000000", GasPrice: "1"})
+			code := createCode
+			if rng.Intn(2) == 0 {
+				code = envCode // code whose effects depend on the block environment (time, number, coinbase ...)
+			}
+			b, _ := json.Marshal(types.ContractData{AbiData: code, TransferValue: "0", GasLimit: "30000000", GasPrice: "1"})
 			s.Data = string(b)
 		default:
 			s.Kind = "contract-call"
